@@ -103,13 +103,35 @@ def generate(api):
              "process_paint: failed resolution removes the paint")
         need(r"if\s+let\s+Paint::Pattern\(ref\s+mut\s+patt\)\s*=\s*paint\s*\{\s*if\s+let\s+Some\(ref\s+mut\s+patt\)\s*=\s*Arc::get_mut\(patt\)\s*\{\s*"
              r"update_paint_servers\(&mut\s+patt\.root,", b2, "process_paint: pattern content visited only through Arc::get_mut")
+        # order: the paint itself is resolved (possibly cloned) first, THEN the content of the now uniquely held pattern is visited
+        i1 = b2.find('paint.to_user_coordinates(bbox, cache)')
+        i2 = b2.find('Arc::get_mut(patt)')
+        i3 = b2.find('process_context_paint(paint')
+        if not (0 <= i1 < i2 < i3):
+            raise api.Unsupported("process_paint: order of resolution / pattern descent / context adjustment changed")
+        # convert_doc drops every cached Arc before the post-pass, so that definitions used once are uniquely held
+        conv = re.sub(r"//[^\n]*", "", api.rd('crates/usvg/src/parser/converter.rs'))
+        p4, r4, b4 = rs.find_fn(conv, 'convert_doc')
+        need(r"cache\.clip_paths\.clear\(\);\s*cache\.masks\.clear\(\);\s*cache\.filters\.clear\(\);\s*cache\.paint\.clear\(\);\s*"
+             r"super::paint_server::update_paint_servers\(", b4, "convert_doc: all four caches cleared before update_paint_servers")
         return "\n".join(ds)
     section('Paint::to_user_coordinates / process_paint', 'crates/usvg/src/parser/paint_server.rs', g_paint)
 
+    CHAIN_LOOP = (r"let\s+mut\s+chain\s*=\s*vec!\[node\];\s*while\s+let\s+Some\(link\)\s*=\s*chain\.last\(\)\.and_then\(\|n\|\s*"
+                  r"n\.attribute::<SvgNode>\(AId::%s\)\)\s*\{\s*if\s+chain\.contains\(&link\)\s*\{\s*break;\s*\}\s*chain\.push\(link\);\s*\}\s*"
+                  r"chain\s*\.iter\(\)\s*\.all\(\|n\|\s*(.*?)\)\s*\}\s*$")
+
     def g_clip(src):
         params, ret, body = rs.find_fn(src, 'convert')
-        m = need(r"let\s+cacheable\s*=\s*(units\s*==\s*Units::UserSpaceOnUse);", body, "clipPath cacheable")
-        d1 = tr_block('clip_cacheable', '(units : units_)', 'bool', "{ %s }" % m.group(1))
+        # since 18adf92: shared only if no clipPath of the whole link chain is objectBoundingBox
+        need(r"let\s+cacheable\s*=\s*is_cacheable\(node\);", body, "clipPath cacheable = is_cacheable(node)")
+        p2, r2, b2 = rs.find_fn(src, 'is_cacheable')
+        m = need(CHAIN_LOOP % 'ClipPath', b2, "clippath::is_cacheable: all elements of the link chain")
+        e = re.sub(r"\s+", " ", m.group(1)).strip()
+        if e != "n.attribute(AId::ClipPathUnits) != Some(Units::ObjectBoundingBox)":
+            raise api.Unsupported("clippath::is_cacheable element test changed: " + e)
+        # the per-element test over the resolved units (absent attribute = userSpaceOnUse)
+        d1 = tr_block('clip_cacheable', '(units : units_)', 'bool', "{ units != Units::ObjectBoundingBox }")
         m = need(r"let\s+ts\s*=\s*Transform::from_bbox\(object_bbox\);\s*transform\s*=\s*(transform\.pre_concat\(ts\));", body,
                  "clipPath objectBoundingBox transform")
         d2 = tr_block('clip_resolve_ts', '(transform : ts) (object_bbox : qrect)', 'ts',
@@ -118,14 +140,20 @@ def generate(api):
              body, "clipPath cache lookup only when cacheable")
         need(r"clip_path\s*=\s*convert\(link,\s*&clip_state,\s*object_bbox,\s*cache\);", body, "linked clipPath converted with the same bbox")
         need(r"if\s+!cacheable\s*&&\s*cache\.clip_paths\.contains_key\(id\.get\(\)\)\s*\{\s*id\s*=\s*cache\.gen_clip_path_id\(\);", body,
-             "clipPath: generated id on second objectBoundingBox use")
+             "clipPath: generated id on second non-cacheable use")
         return d1 + "\n" + d2
     section('clippath::convert', 'crates/usvg/src/parser/clippath.rs', g_clip)
 
     def g_mask(src):
         params, ret, body = rs.find_fn(src, 'convert')
-        m = need(r"let\s+cacheable\s*=\s*(units\s*==\s*Units::UserSpaceOnUse\s*&&\s*content_units\s*==\s*Units::UserSpaceOnUse);", body, "mask cacheable")
-        d1 = tr_block('mask_cacheable', '(units content_units : units_)', 'bool', "{ %s }" % m.group(1))
+        need(r"let\s+cacheable\s*=\s*is_cacheable\(node\);", body, "mask cacheable = is_cacheable(node)")
+        p2, r2, b2 = rs.find_fn(src, 'is_cacheable')
+        m = need(CHAIN_LOOP % 'Mask', b2, "mask::is_cacheable: all elements of the link chain")
+        e = re.sub(r"\s+", " ", m.group(1)).strip().strip('{} ')
+        if e != "n.attribute(AId::MaskUnits) == Some(Units::UserSpaceOnUse) && n.attribute(AId::MaskContentUnits) != Some(Units::ObjectBoundingBox)":
+            raise api.Unsupported("mask::is_cacheable element test changed: " + e)
+        d1 = tr_block('mask_cacheable', '(units content_units : units_)', 'bool',
+                      "{ units == Units::UserSpaceOnUse && content_units != Units::ObjectBoundingBox }")
         need(r"rect\s*=\s*crate::checked_bbox_transform\(rect,\s*bbox\)", body, "mask region via checked_bbox_transform")
         need(r"g\.transform\s*=\s*Transform::from_bbox\(object_bbox\);", body, "mask content group transform")
         need(r"mask\s*=\s*convert\(link,\s*state,\s*object_bbox,\s*cache\);", body, "linked mask converted with the same bbox")
